@@ -484,7 +484,7 @@ def stepSess (s : State) (a : ActorId) (l : Local) (c : Choice) : Option State :
   | .ssLock, .go => lockS .ssReserve
   | .ssReserve, .go =>
     if x.ended then some ((s.finish a l e (.err .sessEnded)).putS sid { x with mutex := none })
-    else if x.txn.isSome ∨ x.starting then
+    else if x.txn ≠ none ∨ x.starting then
       some ((s.finish a l e (.err .existing)).putS sid { x with mutex := none })
     else
       some ((s.put a { l with pc := .bLock, k := .start, lockF := true, ctxSess := none } e).putS sid
